@@ -116,7 +116,7 @@ fn runtime_only(kind: u16) -> Vec<Value> {
 // ---------------------------------------------------------------------------------------------
 // Example harvesting: literal argument texts per (function, parameter)
 
-fn split_top_level(s: &str) -> Vec<String> {
+pub fn split_top_level(s: &str) -> Vec<String> {
     let mut out = Vec::new();
     let mut depth = 0i32;
     let mut cur = String::new();
@@ -160,7 +160,7 @@ fn split_top_level(s: &str) -> Vec<String> {
     out
 }
 
-fn looks_literal(t: &str) -> bool {
+pub fn looks_literal(t: &str) -> bool {
     let t = t.trim();
     if t.is_empty() || t.len() > 300 {
         return false;
@@ -171,7 +171,7 @@ fn looks_literal(t: &str) -> bool {
 }
 
 /// All call sites `name(...)` / `name!(...)` in `src`: the raw argument list text.
-fn call_sites(src: &str, name: &str) -> Vec<String> {
+pub fn call_sites(src: &str, name: &str) -> Vec<String> {
     let mut out = Vec::new();
     let bytes = src.as_bytes();
     let mut from = 0;
@@ -223,6 +223,31 @@ fn call_sites(src: &str, name: &str) -> Vec<String> {
             }
         }
     }
+    out
+}
+
+/// Call shapes taken from a function's own examples with the FIRST argument replaced by `.a0`:
+/// (`name(.a0, <the example's other arguments verbatim>)`, the example's first argument text).
+pub fn example_shapes() -> Vec<(String, String, String)> {
+    let mut out = Vec::new();
+    for f in &vrlx::fns() {
+        let name = f.identifier();
+        if EXCLUDED.contains(&name) || NONDETERMINISTIC.contains(&name) {
+            continue;
+        }
+        for ex in f.examples() {
+            for site in call_sites(ex.source, name) {
+                let args = split_top_level(&site);
+                if args.len() < 2 || !looks_literal(&args[0]) || !args[0].trim_start().starts_with(['"', 's']) {
+                    continue;
+                }
+                let rest = args[1..].join(", ");
+                out.push((name.to_string(), format!("{name}(.a0, {rest})"), args[0].clone()));
+            }
+        }
+    }
+    out.sort();
+    out.dedup();
     out
 }
 
